@@ -207,6 +207,7 @@ fn next_expiry(store: &FeoxStore, now: u64) -> Option<u64> {
 
 impl Sut {
     fn build(cfg: &Cfg, path: Option<&str>, rotate: usize) -> Result<FeoxStore, FeoxError> {
+
         // more buckets when the program's keys have to lie in pairwise distinct ones
         let mut b = FeoxStore::builder().hash_bits(if cfg.mem_points { 10 } else { 4 }).enable_ttl(cfg.ttl);
         b = match cfg.max_memory {
@@ -259,6 +260,7 @@ impl Sut {
 
     pub fn create_with(cfg: Cfg, tag: &str, sess: Arc<Session>) -> Result<Sut, String> {
         sess.install();
+        sess.uring_ids.lock().clear(); // a new store brings a new ring
         let path = if cfg.persistent {
             let p = crate::util::scratch_file(tag);
             let p = p.to_str().unwrap().to_string();
@@ -281,6 +283,7 @@ impl Sut {
     pub fn open_existing(cfg: Cfg, path: &str, sess: Arc<Session>) -> Result<Sut, FeoxError> {
         let _call = crate::util::in_call("open (recovery)");
         sess.install();
+        sess.uring_ids.lock().clear();
         let store = Self::build(&cfg, Some(path), crate::util::COUNTER.fetch_add(1, Ordering::Relaxed))?;
         Ok(Sut { store: Some(Arc::new(store)), path: Some(path.to_string()), cfg, sess, owns_file: false })
     }
@@ -303,6 +306,7 @@ impl Sut {
 
     pub fn reopen(&mut self) -> Result<(), FeoxError> {
         self.close();
+        self.sess.uring_ids.lock().clear();
         let path = self.path.clone().expect("persistent store");
         let store = Self::build(&self.cfg, Some(&path), crate::util::COUNTER.fetch_add(1, Ordering::Relaxed))?;
         self.store = Some(Arc::new(store));
